@@ -67,6 +67,24 @@ pub fn fam_state(family: Family) -> BoxedStrategy<FamState> {
                 .prop_map(move |mut st| {
                     st.version = v;
                     st.players.truncate(12);
+                    if v == 1 {
+                        for p in st.players.iter_mut() {
+                            p.frags = (p.frags as u32 & 0xFFFF) as i32;
+                        }
+                    }
+                    // the reply is one datagram of at most 1024 bytes
+                    while st.encode().len() > 1024 {
+                        if st.players.pop().is_none() {
+                            let keep: Vec<(String, String)> = st
+                                .vars
+                                .iter()
+                                .filter(|(k, _)| ["hostname", "sv_hostname", "mapname", "map", "maxclients", "sv_maxclients"].contains(&k.as_str()))
+                                .map(|(k, v)| (k.clone(), v.chars().take(20).collect()))
+                                .collect();
+                            st.vars = keep;
+                            break;
+                        }
+                    }
                     FamState::Quake(st)
                 })
                 .boxed()
